@@ -9,5 +9,7 @@ open Neutrino.Store
 #print axioms exec_outcome
 #print axioms rollTo_outcome
 #print axioms C08_first_init
-#print axioms C08_first_init_points
+#print axioms C08_first_init_empty
+#print axioms C08_restart_killed
+#print axioms C08_start_steps_agree
 #print axioms C08_first_init_keeps_data
